@@ -36,6 +36,9 @@ for d in sorted(glob.glob("/verif/seeded/C*-*")):
 open("/verif/seeded/README.md", "w").write(
     "# Seeded changes\n\nEach directory holds a change to pytest-dev/execnet written by an independent sub-agent that saw only the property text "
     "(patch.diff), its demonstration (demo.py: exit 0 on the unchanged tree, non-zero with the change) and meta.json (what it needs to manifest, "
-    "how it was confirmed, which quick checks report it).  None is applied to /repo.\n\n| seed | change | quick checks that report it |\n|---|---|---|\n"
+    "how it was confirmed, which quick checks report it).  None is applied to /repo.  Every patch was written against the commit named in its meta.json "
+    "(base_commit) and its detection was measured there; later `fix:` commits touch some of the same lines, so at the current HEAD 6 patches "
+    "(C05-2, C06-1, C16-4, C16-5, C20-6, C20-8) no longer apply - three of them (`io.wait()` before `join()` on a via= gateway) cannot break "
+    "anything any more since the forwarder's wait request left the receiver thread - and 6 more need `patch -F3`.\n\n| seed | change | quick checks that report it |\n|---|---|---|\n"
     + "\n".join(rows) + "\n")
 print(len(rows), "seeds kept")
